@@ -145,6 +145,32 @@ def _writer_conversion(branch: ast.AST, saved: str):
                     K = excluded(c.value.test, kv, vv)
                     if K is not None:
                         return norm(g.iter.func.value), K
+        # a fresh dict filled key by key:  for k, v in D.items(): if k == K: M[k] = <image>  elif isinstance(v, Tensor): M[k] = v.numpy()  else: M[k] = v
+        if isinstance(n, ast.For) and isinstance(n.iter, ast.Call) and isinstance(n.iter.func, ast.Attribute) and n.iter.func.attr == "items" and norm(n.iter.func.value) != saved \
+                and isinstance(n.target, ast.Tuple) and len(n.target.elts) == 2 and len(n.body) == 1 and isinstance(n.body[0], ast.If):
+            kv, vv = [norm(e) for e in n.target.elts]
+            D = norm(n.iter.func.value)
+            i1 = n.body[0]
+            i2 = i1.orelse[0] if len(i1.orelse) == 1 and isinstance(i1.orelse[0], ast.If) else None
+            t1 = i1.test
+            isK = isinstance(t1, ast.Compare) and len(t1.ops) == 1 and isinstance(t1.ops[0], ast.Eq) and norm(t1.left) == kv and isinstance(astq.const_value(t1.comparators[0]), str)
+            if isK and i2 is not None and len(i1.body) == 1 and len(i2.body) == 1 and len(i2.orelse) == 1 \
+                    and isinstance(i2.test, ast.Call) and norm(i2.test.func) == "isinstance" and len(i2.test.args) == 2 and norm(i2.test.args[0]) == vv and norm(i2.test.args[1]).endswith("Tensor"):
+                a1, a2, a3 = i1.body[0], i2.body[0], i2.orelse[0]
+                tgt = f"{saved}[{kv}]"
+                if all(isinstance(a_, ast.Assign) and norm(a_.targets[0]) == tgt for a_ in (a1, a2, a3)) and norm(a2.value) == f"{vv}.numpy()" and norm(a3.value) == vv:
+                    K = astq.const_value(t1.comparators[0])
+                    fn_ = n
+                    while fn_ is not None and not isinstance(fn_, (ast.FunctionDef, ast.AsyncFunctionDef)):
+                        fn_ = getattr(fn_, "_parent", None)
+                    img = astq.expand_at(fn_, a1.value, a1, keep=[D, vv, kv]) if fn_ is not None else a1.value
+                    # inside the K arm the loop value IS D[K]
+                    img_txt = norm(img).replace(f"{vv}.squeeze", f"{D}['{K}'].squeeze") if img is not None else ""
+                    try:
+                        img = ast.parse(img_txt, mode="eval").body
+                    except SyntaxError:
+                        pass
+                    return D, K, img
     return None
 
 
@@ -156,6 +182,18 @@ def check_npz(prog: Program, res: Result) -> None:
         fi = prog.cls(f"{CD}:{cname}").methods.get("_fill_cache")
         res.touch(fi)
         branch = [n for n in walk_function(fi.node) if isinstance(n, ast.If) and norm(n.test) == "self.np_chunks"]
+        if not branch:
+            # guard-clause form:  if not self.np_chunks: <in-memory entry>; continue   - the writer is the rest of the loop body
+            for g in walk_function(fi.node):
+                if isinstance(g, ast.If) and norm(g.test) == "not self.np_chunks" and not g.orelse and g.body and isinstance(g.body[-1], ast.Continue):
+                    par = getattr(g, "_parent", None)
+                    blk = getattr(par, "body", [])
+                    if any(g is x for x in blk):
+                        rest = blk[[i for i, x in enumerate(blk) if x is g][0] + 1:]
+                        region = ast.If(test=ast.Attribute(value=ast.Name(id="self", ctx=ast.Load()), attr="np_chunks", ctx=ast.Load()), body=rest, orelse=[])
+                        ast.copy_location(region, g)
+                        region._parent = par  # type: ignore[attr-defined]
+                        branch.append(region)
         res.ob(R, len(branch) == 1, fi.qualname, "one np_chunks branch in the cache fill", f"{len(branch)} np_chunks branches", fi.where)
         if len(branch) != 1:
             continue
@@ -165,13 +203,21 @@ def check_npz(prog: Program, res: Result) -> None:
         saved = stars[0].id if len(sv) == 1 and len(stars) == 1 and isinstance(stars[0], ast.Name) else None
         conv = _writer_conversion(b, saved) if saved is not None else None     # (source dict, excluded key)
         src = conv[0] if conv else None
-        pil = [s for s in b.body if isinstance(s, ast.Assign) and src is not None and norm(s.targets[0]) == f"{src}['{key}']"]
-        ok = len(pil) == 1 and norm(pil[0].value) in (f"self.transform_to_pil({src}['{key}'].squeeze(dim=0))", f"self.transform_to_pil({src}['{key}'].squeeze(0))")
-        res.ob(R, ok, fi.qualname, f"writer: {key} -> PIL of the squeezed image", f"the writer stores sample['{key}'] as `{short(pil[0].value, 60) if pil else '?'}`", fi.where)
+        pil_forms = (f"self.transform_to_pil({src}['{key}'].squeeze(dim=0))", f"self.transform_to_pil({src}['{key}'].squeeze(0))")
+        if conv is not None and len(conv) == 3:
+            # the saved mapping is a fresh dict: the image entry is written there
+            pv = conv[2]
+            ok = pv is not None and norm(pv) in pil_forms
+            res.ob(R, ok, fi.qualname, f"writer: {key} -> PIL of the squeezed image", f"the writer stores '{key}' as `{short(pv, 60) if pv is not None else '?'}`", fi.where)
+        else:
+            pil = [s for s in b.body if isinstance(s, ast.Assign) and src is not None and norm(s.targets[0]) == f"{src}['{key}']"]
+            ok = len(pil) == 1 and norm(pil[0].value) in pil_forms
+            res.ob(R, ok, fi.qualname, f"writer: {key} -> PIL of the squeezed image", f"the writer stores sample['{key}'] as `{short(pil[0].value, 60) if pil else '?'}`", fi.where)
         excl = conv[1] if conv else None
         res.ob(R, conv is not None and excl == key, fi.qualname, f"writer: every other tensor -> numpy, '{key}' excluded",
                f"the writer's conversion loop excludes '{excl}' (expected '{key}') or does not store v.numpy()", fi.where)
-        loops_ = [n for n in walk_function(fi.node) if isinstance(n, ast.For) and norm(n.iter).startswith("enumerate(") and astq.in_body_of(b, n)]
+        anchor_ = b if any(b is x for x in walk_function(fi.node)) else (b.body[0] if b.body else b)     # the guard-clause region is synthetic
+        loops_ = [n for n in walk_function(fi.node) if isinstance(n, ast.For) and norm(n.iter).startswith("enumerate(") and astq.in_body_of(anchor_, n)]
         lv = norm(loops_[-1].target.elts[0]) if loops_ and isinstance(loops_[-1].target, ast.Tuple) else None
         path = astq.expand_at(fi.node, sv[0].args[0], astq_enclosing18(sv[0])) if len(sv) == 1 and sv[0].args else None
         loop_vars = {t_ for l_ in walk_function(fi.node) if isinstance(l_, (ast.For, ast.comprehension)) for t_ in astq.target_names(l_.target)}
@@ -215,6 +261,53 @@ def check_npz(prog: Program, res: Result) -> None:
     res.floor(R, 17)
 
 
+def _model_type_arms(fn: ast.AST):
+    """[(model type, statements executed for it)] of a `if self.model_type == "...": ... elif ...` dispatch: the arm's own body
+    followed by the statements that come after the whole chain in the same block (a dispatch that only selects a class and
+    its arguments, with the construction written once after it, is read arm by arm)."""
+    out = []
+    for node in walk_function(fn):
+        if not (isinstance(node, ast.If) and isinstance(node.test, ast.Compare) and norm(node.test.left) == "self.model_type" and isinstance(node.test.comparators[0], ast.Constant)):
+            continue
+        top = node
+        while True:
+            par = getattr(top, "_parent", None)
+            if isinstance(par, ast.If) and len(par.orelse) == 1 and par.orelse[0] is top and isinstance(par.test, ast.Compare) and norm(par.test.left) == "self.model_type":
+                top = par
+            else:
+                break
+        par = getattr(top, "_parent", None)
+        tail = []
+        for fld in ("body", "orelse", "finalbody"):
+            blk = getattr(par, fld, None)
+            if isinstance(blk, list) and any(top is x for x in blk):
+                tail = blk[[i for i, x in enumerate(blk) if x is top][0] + 1:]
+        out.append((node.test.comparators[0].value, list(node.body) + list(tail), node))
+    return out
+
+
+def _arm_call(fn: ast.AST, stmts, st: ast.Assign):
+    """(class text, {keyword: normalised value}) of the construction `st` as executed in the arm `stmts`: a class chosen by name
+    in the arm (`dataset_cls = BottomUpDataset`) and `**kwargs` dicts written as literals in the arm are read through."""
+    call = st.value
+    cls = norm(call.func)
+    if isinstance(call.func, ast.Name):
+        b = [x for x in stmts if isinstance(x, ast.Assign) and len(x.targets) == 1 and norm(x.targets[0]) == call.func.id and isinstance(x.value, (ast.Name, ast.Attribute))]
+        if len(b) == 1:
+            cls = norm(b[0].value)
+    kw = {}
+    for k in call.keywords:
+        if k.arg is not None:
+            kw[k.arg] = norm(astq.expand_at(fn, k.value, st))
+        elif isinstance(k.value, ast.Name):
+            lit = [x for x in stmts if isinstance(x, ast.Assign) and len(x.targets) == 1 and norm(x.targets[0]) == k.value.id and isinstance(x.value, ast.Dict)]
+            if len(lit) == 1:
+                for kk, vv in zip(lit[0].value.keys, lit[0].value.values):
+                    if isinstance(kk, ast.Constant) and isinstance(kk.value, str):
+                        kw[kk.value] = norm(astq.expand_at(fn, vv, lit[0]))
+    return cls, kw
+
+
 def check_wiring(prog: Program, res: Result) -> None:
     R = "C18-wiring"
     ci = prog.cls(MT)
@@ -222,17 +315,15 @@ def check_wiring(prog: Program, res: Result) -> None:
     td = ci.methods.get("_create_data_loaders_torch_dataset")
     res.touch(td)
     n = 0
-    for node in walk_function(td.node):
-        if isinstance(node, ast.If) and isinstance(node.test, ast.Compare) and norm(node.test.left) == "self.model_type" and isinstance(node.test.comparators[0], ast.Constant):
-            mtype = node.test.comparators[0].value
+    for mtype, arm, node in _model_type_arms(td.node):
+        if True:
             if mtype not in _train.MODEL_TYPES:
                 continue
             want = _train.MODEL_TYPES[mtype]["ds"]
-            for st in node.body:
-                if isinstance(st, ast.Assign) and isinstance(st.value, ast.Call):
+            for st in arm:
+                if isinstance(st, ast.Assign) and isinstance(st.value, ast.Call) and isinstance(st.targets[0], ast.Attribute) and "dataset" in norm(st.targets[0]):
                     n += 1
-                    cls = norm(st.value.func)
-                    kw = {k.arg: norm(astq.expand_at(td.node, k.value, st)) for k in st.value.keywords}
+                    cls, kw = _arm_call(td.node, arm, st)
                     res.ob(R, cls == want, td.qualname, f"{mtype}: {norm(st.targets[0])} = {want}(...)", f"model type {mtype} builds a {cls}", f"{td.module.relpath}:{st.lineno}")
                     ok = kw.get("scale") == "self.config.data_config.preprocessing.scale" and kw.get("max_stride") == "self.max_stride" \
                         and kw.get("confmap_head_config") == f"self.config.model_config.head_configs.{mtype}.confmaps" and kw.get("max_hw") == "(self.max_height, self.max_width)" \
